@@ -11,7 +11,7 @@ import os, sys, json, itertools
 import vlib
 
 LEVEL = 'proof'
-KINDS = ['varr']  # 'bitmap' is switched on once fixes/C19-1.patch is committed to /repo
+KINDS = ['varr', 'htab', 'dlist']  # 'bitmap' is switched on once fixes/C19-1.patch is committed to /repo
 
 
 # ------------------------------------------------------------------ generators
@@ -143,7 +143,140 @@ def bitmap_seq_sweep(L):
         yield 'bitmap 2 : ' + ' ; '.join(seq)
 
 
-GEN = {'varr': gen_varr, 'bitmap': gen_bitmap}
+HASHES = [0, 0, 1, 1, 2, 3, 4, 5, 7, 8, 9, 16, 17, 2048, 2049, 4096, 1 << 22, (1 << 22) + 1, 0xffffffff, 0xfffff800,
+          0x80000000, 12345, 99991]
+
+
+def gen_htab(rng, nops):
+    """random script; hash table chosen to force collisions / value 0 / high bits (peterb); phases that fill the
+    element array (els_bound == els_size => rebuild) and delete + re-insert (tombstone reuse, compaction)"""
+    nkeys = rng.choice([2, 3, 4, 6, 9, 14, 24])
+    mode = rng.random()
+    if mode < 0.25:
+        table = [rng.choice([0, 1, 4]) for _ in range(nkeys)]          # everything collides
+    elif mode < 0.5:
+        table = [rng.choice(HASHES) for _ in range(nkeys)]
+    elif mode < 0.75:
+        m = rng.choice([4, 8, 16])
+        table = [rng.randrange(4) * m + rng.choice([0, 0, 1]) for _ in range(nkeys)]   # same low bits
+    else:
+        table = [rng.randrange(1 << 32) for _ in range(nkeys)]
+    min_size = rng.choice([0, 1, 2, 3, 4, 5, 8])
+    ops = []
+    present = set()
+    while len(ops) < nops:
+        k = rng.random()
+        key = rng.randrange(nkeys)
+        if k < 0.12:       # churn: delete + re-insert the same key several times (tombstones, els_bound creeps up)
+            for _ in range(rng.randint(1, 4)):
+                ops += ['del %d' % key, '%s %d %d' % (rng.choice(['ins', 'rep']), key, rng.randint(0, 9))]
+            present.add(key)
+        elif k < 0.40:
+            ops.append('ins %d %d' % (key, rng.randint(0, 9))); present.add(key)
+        elif k < 0.55:
+            ops.append('rep %d %d' % (key, rng.randint(0, 9))); present.add(key)
+        elif k < 0.72:
+            if present and rng.random() < 0.8:
+                key = rng.choice(sorted(present))
+            ops.append('del %d' % key); present.discard(key)
+        elif k < 0.88:
+            ops.append('find %d' % key)
+        elif k < 0.91:
+            ops.append('num')
+        elif k < 0.94:
+            ops.append('each')
+        elif k < 0.96:
+            ops.append('coll')
+        elif k < 0.98:
+            ops.append('clear'); present.clear()
+        else:                 # fill: insert every key
+            ops += ['ins %d %d' % (q, rng.randint(0, 9)) for q in range(nkeys)]
+            present = set(range(nkeys))
+    return 'htab %d %s : ' % (min_size, ' '.join(map(str, table))) + ' ; '.join(ops)
+
+
+def htab_seq_sweep(L, tables, nkeys=3):
+    alpha = []
+    for k in range(nkeys):
+        alpha += ['find %d' % k, 'ins %d 1' % k, 'rep %d 2' % k, 'del %d' % k]
+    alpha.append('clear')
+    for t in tables:
+        hd = 'htab 1 %s : ' % ' '.join(map(str, t))
+        for seq in itertools.product(alpha, repeat=L):
+            yield hd + ' ; '.join(seq)
+
+
+def gen_dlist(rng, nops):
+    n = rng.choice([1, 2, 3, 4, 6, 10])
+    l = []
+    ops = []
+    for _ in range(nops):
+        k = rng.random()
+        free = [e for e in range(n) if e not in l]
+        if k < 0.02:      # an illegal op ends the script on both sides (REJECT)
+            ops.append(rng.choice(['pre %d' % rng.randrange(n + 1), 'rem %d' % rng.randrange(n + 1),
+                                   'insb %d %d' % (rng.randrange(n), rng.randrange(n))]))
+            # keep the python-side list in step when the op happens to be legal
+            w = ops[-1].split()
+            a = int(w[1])
+            if w[0] == 'pre' and a < n and a not in l:
+                l.insert(0, a)
+            elif w[0] == 'rem' and a in l:
+                l.remove(a)
+            elif w[0] == 'insb' and a in l and int(w[2]) not in l:
+                l.insert(l.index(a), int(w[2]))
+            else:
+                break
+        elif k < 0.45 and free:
+            e = rng.choice(free)
+            c = rng.random()
+            if c < 0.25 or not l:
+                if rng.random() < 0.5:
+                    ops.append('pre %d' % e); l.insert(0, e)
+                else:
+                    ops.append('app %d' % e); l.append(e)
+            elif c < 0.6:
+                b = rng.choice([l[0], l[-1], rng.choice(l)])
+                ops.append('insb %d %d' % (b, e)); l.insert(l.index(b), e)
+            else:
+                a = rng.choice([l[0], l[-1], rng.choice(l)])
+                ops.append('insa %d %d' % (a, e)); l.insert(l.index(a) + 1, e)
+        elif k < 0.70 and l:
+            e = rng.choice([l[0], l[-1], rng.choice(l)])
+            ops.append('rem %d' % e); l.remove(e)
+        elif k < 0.80:
+            ops.append('el %d' % rng.randint(-len(l) - 2, len(l) + 1))
+        elif k < 0.84:
+            ops.append('len')
+        elif k < 0.88:
+            ops.append(rng.choice(['head', 'tail']))
+        elif l:
+            ops.append('%s %d' % (rng.choice(['next', 'prev']), rng.choice(l)))
+    return 'dlist %d : ' % n + ' ; '.join(ops or ['len'])
+
+
+def dlist_seq_sweep(L, n=3):
+    """every legal sequence of <= L mutators over n nodes, followed by all observers"""
+    def rec(l, seq):
+        obs = ['el %d' % i for i in range(-len(l) - 1, len(l) + 1)] + ['len', 'head', 'tail']
+        obs += ['next %d' % e for e in l] + ['prev %d' % e for e in l]
+        yield 'dlist %d : ' % n + ' ; '.join(seq + obs)
+        if len(seq) >= L:
+            return
+        for e in range(n):
+            if e not in l:
+                yield from rec([e] + l, seq + ['pre %d' % e])
+                yield from rec(l + [e], seq + ['app %d' % e])
+                for b in l:
+                    i = l.index(b)
+                    yield from rec(l[:i] + [e] + l[i:], seq + ['insb %d %d' % (b, e)])
+                    yield from rec(l[:i + 1] + [e] + l[i + 1:], seq + ['insa %d %d' % (b, e)])
+            else:
+                yield from rec([x for x in l if x != e], seq + ['rem %d' % e])
+    yield from rec([], [])
+
+
+GEN = {'varr': gen_varr, 'bitmap': gen_bitmap, 'htab': gen_htab, 'dlist': gen_dlist}
 
 
 # ------------------------------------------------------------------ comparison
@@ -167,7 +300,41 @@ def cmp_lines(a, b):
     return 'same' if ba == bb else 'book'
 
 
-def run_both(impl, model, scripts):
+def features(chk, script, out):
+    """measured distribution of what the scripts exercised (from the implementation's own output)"""
+    kind = script.split(None, 1)[0]
+    if kind == 'htab':
+        toks = out.split()
+        zs = [t for t in toks if t.startswith('#z')]
+        es = [t[2:].split(',') for t in toks if t.startswith('#E')]
+        rebuilds = sum(1 for a, b in zip(zs, zs[1:]) if a != b)
+        reuse = 0
+        compact = 0
+        for (a, b), (za, zb) in zip(zip(es, es[1:]), zip(zs, zs[1:])):
+            if za == zb and any(x == 'x' and y not in ('x', '.') for x, y in zip(a, b)):
+                reuse += 1
+            if za != zb and 'x' in a:
+                compact += 1
+        chk.dist('htab_rebuilds_per_script', min(rebuilds, 4))
+        chk.dist('htab_features', 'tombstone_reused', reuse)
+        chk.dist('htab_features', 'rebuild_with_tombstones', compact)
+        chk.dist('htab_features', 'found', out.count(' f1 '))
+        chk.dist('htab_features', 'not_found', out.count(' f0 '))
+        if script.split(':')[0].split()[2:].count('0'):
+            chk.dist('htab_features', 'scripts_with_hash_0', 1)
+    elif kind == 'bitmap':
+        for o in script.split(':', 1)[1].split(';'):
+            w = o.split()
+            if w and w[0] in OP2 + OP3:
+                ids = w[1:]
+                canon = {}
+                pat = ''.join(str(canon.setdefault(i, len(canon))) for i in ids)
+                chk.dist('bitmap_alias_patterns', pat)
+        chk.dist('bitmap_features', 'flag_true', out.count(' b1 '))
+        chk.dist('bitmap_features', 'flag_false', out.count(' b0 '))
+
+
+def run_both(impl, model, scripts, chk=None):
     """returns list of (script, impl_line, model_line, verdict) for the scripts that do not agree"""
     rc2, o2, e2 = vlib.run_lines(model, scripts)
     if rc2 != 0 or len(o2) != len(scripts):
@@ -186,6 +353,8 @@ def run_both(impl, model, scripts):
         v = cmp_lines(a, b)
         if v != 'same':
             bad.append((s, a, b, v))
+        if chk is not None and not s.startswith('bitmap 6'):
+            features(chk, s, a)
     return bad
 
 
@@ -230,7 +399,8 @@ def script_stream(chk):
             l = l.strip()
             if l and not l.startswith('#') and l.split()[0] in KINDS:
                 yield 'corpus', l
-    budget = {'varr': 400 if quick else 20000, 'bitmap': 1500 if quick else 60000}
+    budget = {'varr': 400 if quick else 20000, 'bitmap': 1500 if quick else 60000,
+              'htab': 1500 if quick else 60000, 'dlist': 800 if quick else 30000}
     for kind in KINDS:
         subseeds = [''] if quick else ['', 'b', 'c']
         for ss in subseeds:
@@ -247,6 +417,16 @@ def script_stream(chk):
             for s in bitmap_state_sweep([1, 64, 130], [0, 1]):  # 16^3 pre-states x 243 ops
                 yield 'sweep', s
             for s in bitmap_seq_sweep(3):
+                yield 'seq', s
+    if 'htab' in KINDS:
+        tables = [[4, 4, 4], [0, 1, 5], [3, 2051, 7]]
+        for s in htab_seq_sweep(3 if quick else 5, tables[:2] if quick else tables):
+            yield 'seq', s
+    if 'dlist' in KINDS:
+        for s in dlist_seq_sweep(3 if quick else 5, 3):
+            yield 'seq', s
+        if not quick:
+            for s in dlist_seq_sweep(4, 4):
                 yield 'seq', s
 
 
@@ -266,7 +446,7 @@ def run(chk):
     def flush():
         nonlocal batch
         if batch:
-            bad.extend(run_both(impl, model, batch))
+            bad.extend(run_both(impl, model, batch, chk))
             batch = []
     for origin, s in script_stream(chk):
         nops = s.count(';') + 1
